@@ -28,7 +28,15 @@ def h_history(e, **kw):
     return cachestep.h_history(e, **kw)
 
 
-HARNESSES = {"step": h_step, "history": h_history}
+def h_prog(e, **kw):
+    return cachestep.h_prog_dcache(e, **kw)
+
+
+def h_config(e, **kw):
+    return cachestep.h_config(e, **kw)
+
+
+HARNESSES = {"step": h_step, "history": h_history, "prog": h_prog, "config": h_config}
 
 
 def jobs(tier, seed):
@@ -36,7 +44,7 @@ def jobs(tier, seed):
 
 
 def extra_jobs(tier, seed):
-    return []
+    return cachestep.prog_jobs(tier, seed, {"C09"}, "checks.c09") + cachestep.config_jobs("checks.c09")
 
 
 BUDGET = {"quick": None, "thorough": 20 * 60}
